@@ -98,8 +98,12 @@ func (cb *CanonicalBlock) MarshalCbor(w io.Writer) error {
 
 // UnmarshalCbor creates this Canonical Block based on a CBOR representation.
 func (cb *CanonicalBlock) UnmarshalCbor(r io.Reader) error {
+	// Pipe incoming bytes into a separate CRC buffer, starting with the array's header as it was received
+	crcBuff := new(bytes.Buffer)
+	crcReader := io.TeeReader(r, crcBuff)
+
 	var blockLen uint64
-	if bl, err := cboring.ReadArrayLength(r); err != nil {
+	if bl, err := cboring.ReadArrayLength(crcReader); err != nil {
 		return err
 	} else if bl != 5 && bl != 6 {
 		return fmt.Errorf("expected array with length 5 or 6, got %d", bl)
@@ -107,14 +111,8 @@ func (cb *CanonicalBlock) UnmarshalCbor(r io.Reader) error {
 		blockLen = bl
 	}
 
-	// Pipe incoming bytes into a separate CRC buffer
-	crcBuff := new(bytes.Buffer)
 	if blockLen == 6 {
-		// Replay array's start
-		if err := cboring.WriteArrayLength(blockLen, crcBuff); err != nil {
-			return err
-		}
-		r = io.TeeReader(r, crcBuff)
+		r = crcReader
 	}
 
 	var blockType uint64
@@ -157,12 +155,8 @@ func (cb *CanonicalBlock) UnmarshalCbor(r io.Reader) error {
 	}
 
 	if blockLen == 6 {
-		if crcCalc, crcErr := calculateCRCBuff(crcBuff, cb.CRCType); crcErr != nil {
-			return crcErr
-		} else if crcVal, err := cboring.ReadByteString(r); err != nil {
+		if crcVal, err := checkCRCField(r, crcBuff, cb.CRCType); err != nil {
 			return err
-		} else if !bytes.Equal(crcCalc, crcVal) {
-			return fmt.Errorf("invalid CRC value: %x instead of expected %x", crcVal, crcCalc)
 		} else {
 			cb.CRC = crcVal
 		}
